@@ -50,6 +50,10 @@ CHECKS = {
          "Each specifier cell is rendered for every enumerated value and compared with RefFmt (whose 50 example cells from the documentation are asserted at start-up); week numbering, ISO year, signed and 5-6 digit years, leap seconds and offsets with seconds are all inside the enumerated product; formatting must fail (not print something else) for everything outside the table.",
          "Trusted: RefFmt (transcription of the documented table). Cells the documentation leaves open are compared as 'same sign and digits, any padding' and listed in the evidence.",
          "DESIGN.md §4 C12"),
+ 'C13': ("complete product of a generated family of unambiguous format strings (31 date forms x 21 time forms x separators x offset forms, plus %c/%+/%s forms; every specifier the reader can invert and every padding modifier occurs) x boundary values within the range each form can express x the granted text perturbations (letter case of names, surplus white space); parse(format(v)) compared with v at the printed precision",
+         "Every member of the family is formatted and parsed back on every boundary date (signed and 5-6 digit years included), every boundary time (leap seconds included) and, for combined forms, on the small date set x times x whole-minute offsets; the formatted text is additionally perturbed in every way the statement grants.",
+         "Trusted: the per-form value ranges written next to each form (two-digit years 1970..=2069, %C%y 0..=9999, no leap second through %s).",
+         "DESIGN.md §4 C13"),
  'C17': ("complete small scope (every stamp x every span 1..=40 ns x 3 operations), complete product of boundary stamps x span alphabet x offsets with a second application (idempotence), and all 65,536 digit counts x nanosecond lattice, against i128 floor arithmetic",
          "All sign/tie/multiple combinations occur in the exhaustively enumerated small scope; boundary products cover the 64-bit nanosecond window ends, both date range ends, spans around i64::MAX, zero/negative/inexpressible spans and the wall-clock basis for offsets; each successful result is re-rounded (depth 2) to show idempotence.",
          "Trusted: i128 floor arithmetic; RefLeapTime for leap-second operands of the sub-second operations. The RoundingError variant is not judged.",
